@@ -29,7 +29,7 @@ def run(ctx):
         return
     ctx.translate(COMPONENTS)
     ctx.prove('props/C09.v')
-    L.lockstep(ctx, [L.mon_c09], ['c09'])
+    L.lockstep(ctx, [L.mon_c09], ['c09'], with_raw=True)
     L.instr_sweep(ctx, L.C09_KINDS)
     ctx.coverage['rule_instruction_sweep'] = ('one more delivery (real handler, sigqueue) at every instruction boundary of pending() / wait() / forever().next(), '
                                               'SignalOnly and WithRawSiginfo, 23 configurations of earlier deliveries incl. bursts longer than the buffer; fork per boundary')
